@@ -5,6 +5,7 @@ import GramModel.Parser
 import GramModel.Lemmas.Parser
 import GramModel.Lemmas.ParserTermination
 import GramModel.Lemmas.ParserNoPanic
+import GramModel.Lemmas.CheckNoPanic
 
 /-!
 # C14 — gram handles every input without crashing and reports failure faithfully
@@ -139,3 +140,153 @@ theorem C14_parse_err_nonempty : C14_parse_err_nonempty_stmt := by
   split at h
   · exact PModel.ParseOutcome.noConfusion h
   · exact PModel.finishParse_errors_ne h
+
+
+/-! ## The type checker never panics on a scoped term -/
+
+mutual
+/-- every hole of the term names a cell below `n` -/
+def holesLt (n : Nat) : Tm → Bool
+  | .hole id _ => decide (id < n)
+  | .lam _ _ d b | .pi _ _ d b => holesLt n d && holesLt n b
+  | .app f a => holesLt n f && holesLt n a
+  | .letg ds b => holesLtDefs n ds && holesLt n b
+  | .neg a => holesLt n a
+  | .bin _ a b => holesLt n a && holesLt n b
+  | .ite a b d => holesLt n a && holesLt n b && holesLt n d
+  | _ => true
+def holesLtDefs (n : Nat) : Defs → Bool
+  | .nil => true
+  | .cons _ a d r => holesLt n a && holesLt n d && holesLtDefs n r
+end
+
+/-- (First formulation, **refuted** below; kept, without the `_stmt` suffix, next to its refutation.)
+**No panic in `type_check`.**  The model of the type checker has seven panic outcomes (the
+`unwrap` of `unsigned_shift`, the two context indexings and the two `index + 1 - offset`
+subtractions in `type_check` and `normalize_weak_head`, the `panic!` arm of `unify`).  None is
+reachable from a closed, well-scoped term (what the parser hands over: `wellScoped 0`, every hole an
+unresolved cell of the initial store), for any fuel.  (Running out of fuel is the model's rendering
+of a divergent checker run, which the property allows.) -/
+def C14_infer_no_panic_unrestricted : Prop :=
+  ∀ (fuel n : Nat) (t : Tm) (site : String), wellScoped 0 t = true → holesLt n t = true →
+    inferS fuel t { store := List.replicate n none } ≠ .panic site
+
+/-- the model term of
+`((f : int -> _) => (a : type) => ((h : int -> a) => 0) f) ((z : int) => 0)` -/
+def C14_panic_witness : Tm :=
+  .app (.lam 1 false (.pi 0 false .int (.hole 0 0))
+        (.lam 2 false .type
+          (.app (.lam 3 false (.pi 0 false .int (.var 2 1)) (.lit 0)) (.var 1 1))))
+      (.lam 4 false .int (.lit 0))
+
+/-- `C14_infer_no_panic_unrestricted` is FALSE of the model, and **the Rust checker really panics**
+on the witness: `gram check` on
+`((f : int -> _) => (a : type) => ((h : int -> a) => 0) f) ((z : int) => 0)`
+dies with "attempt to subtract with overflow" at `normalizer.rs:48` (the
+`definitions_context[len - 1 - index]` lookup) — finding D18.
+
+What goes wrong: a hole stands for a term of the scope it was written in, and its shift says how many
+binders have been crossed since.  `signed_shift` only adjusts the shift of a hole when it is at least
+the cutoff, so a hole that sits *under a binder of the shifted term* (`int -> _`: shift 0 < cutoff
+1) is copied unchanged when the term is fetched from the typing context at a deeper place.  The same
+cell then occurs at two different depths with the same shift.  Here it is solved at the deeper
+occurrence (with `a`, index 1 at that depth) and read back through the shallow one (where only
+index 0 exists): `normalize_weak_head` indexes the definitions context out of range.  No user-written
+`_` is needed: `C14_infer_panic_unannotated` below does it with the parser's own annotation holes. -/
+theorem C14_infer_no_panic_refuted : ¬ C14_infer_no_panic_unrestricted := by
+  intro h
+  have hp : inferS 12 C14_panic_witness { store := List.replicate 1 none } =
+      .panic "normalize_weak_head.definitions_context[index]" := by rfl
+  exact h 12 1 C14_panic_witness _ (by decide) (by decide) hp
+
+/-- the model term (as the parser builds it: the annotation hole of the `i`-th of `n` unannotated
+definitions has shift `n - i`) of
+```
+f = (x : int) => 1 2
+g = (a : type) => (b : type) => (c : type) => (h : int -> a) => if true then h else f
+k : (int -> int) = f
+0
+``` -/
+def C14_panic_witness_unannotated : Tm :=
+  .letg (.cons 1 (.hole 0 3) (.lam 8 false .int (.app (.lit 1) (.lit 2)))
+        (.cons 2 (.hole 1 2)
+          (.lam 3 false .type (.lam 4 false .type (.lam 5 false .type
+            (.lam 6 false (.pi 0 false .int (.var 3 3)) (.ite .tt (.var 6 0) (.var 1 6))))))
+        (.cons 7 (.pi 0 false .int .int) (.var 1 2) .nil)))
+    (.lit 0)
+
+/-- The same defect **without any user-written hole** (and again the Rust checker panics at
+`normalizer.rs:48` on the program above, printing no diagnostic): the ill-typed `1 2` leaves an
+unresolved codomain cell `?c` in the inferred type `int -> ?c` of `f`; that type is stored into
+`f`'s annotation cell by a shift by `-3` which does not lower `?c` (it is under the Π binder); `?c` is
+then solved inside `g`, four binders deeper, by `a` (index 4 there) and read back while checking `k`,
+where the context has only 4 entries. -/
+def C14_infer_panic_unannotated_stmt : Prop :=
+  wellScoped 0 C14_panic_witness_unannotated = true ∧
+  holesLt 2 C14_panic_witness_unannotated = true ∧
+  inferS 12 C14_panic_witness_unannotated { store := List.replicate 2 none } =
+    .panic "normalize_weak_head.definitions_context[index]"
+theorem C14_infer_panic_unannotated : C14_infer_panic_unannotated_stmt := by
+  unfold C14_infer_panic_unannotated_stmt
+  exact ⟨by decide, by decide, by rfl⟩
+
+/-- Corrected statement: **no panic in `type_check` on a hole-free term** — a closed, well-scoped
+program in which every binder and every definition carries its annotation and no `_` is written.
+The only holes are then the checker's own (the domain/codomain cells of the application rule and the
+fresh cells `open` makes of them); they all have shift 0, sit on the Π-spine of inferred types, and
+each cell is only ever seen at the depth it was created for (`CheckNoPanic.Sp`), so every solution is
+read in the scope it was written in; typing- and definitions-context entries are hole-free source
+annotations, so fetching them never moves a hole.  This holds for every fuel, for well-typed and
+ill-typed programs alike, whatever the size of the initial store.  The hypothesis cannot be weakened
+to "holes only where the parser puts them" (`C14_infer_panic_unannotated`); what the two witnesses
+need besides a hole is a *type error* earlier in the program (or a hole under a binder inside an
+annotation), so a repair of D18 in the Rust code would have to make `signed_shift`/`unify` respect
+the home scope of a hole under a binder. -/
+def C14_infer_no_panic_fixed_stmt : Prop :=
+  ∀ (fuel n : Nat) (t : Tm) (site : String), wellScoped 0 t = true → t.holeFree = true →
+    inferS fuel t { store := List.replicate n none } ≠ .panic site
+theorem C14_infer_no_panic_fixed : C14_infer_no_panic_fixed_stmt :=
+  fun fuel n t site hw hf => CheckNoPanic.inferS_holeFree_no_panic fuel n t site hw hf
+
+/-- `unsigned_shift(..).unwrap()` is dead whatever the term and the store are (holes, resolved cells,
+cycles included): a shift by a non-negative amount never fails, never panics, and leaves the state
+as it was. -/
+def C14_unsigned_shift_total_stmt : Prop :=
+  ∀ (f c a : Nat) (t : Tm) (s : St),
+    ushiftS f c a t s = .fuel ∨ ∃ t', ushiftS f c a t s = .ok t' s
+theorem C14_unsigned_shift_total : C14_unsigned_shift_total_stmt := by
+  intro f c a t s
+  have h := CheckNoPanic.ushiftS_ro f c a t s
+  generalize ushiftS f c a t s = x at h
+  cases h with
+  | fuel => exact Or.inl rfl
+  | panic h => exact absurd h id
+  | ok _ => exact Or.inr ⟨_, rfl⟩
+
+/-- What remains true of **every** term and every state (holes anywhere, resolved cells, ill-scoped
+input): the only panics the checker model can reach are the four context lookups — never the
+`unwrap` of `unsigned_shift` (all three uses shift by a non-negative amount) and never the `panic!`
+arm of `unify` (C12).  Together with `C14_infer_no_panic_refuted` this says exactly which panic sites
+of `type_check` are live on parser output: the index computations of `normalize_weak_head` (and, by
+the same mechanism, of `type_check`), through a hole read outside its scope. -/
+def C14_infer_panic_sites_stmt : Prop :=
+  ∀ (fuel : Nat) (t : Tm) (s : St) (site : String), inferS fuel t s = .panic site →
+    site = "normalize_weak_head.definitions_context[index]" ∨
+    site = "normalize_weak_head.index+1-offset" ∨
+    site = "type_check.typing_context[index]" ∨
+    site = "type_check.index+1-offset"
+theorem C14_infer_panic_sites : C14_infer_panic_sites_stmt :=
+  fun fuel t s site h => (CheckNoPanic.inferS_lookup fuel t).out s site h
+
+/-- … and on a closed **well-scoped** term (holes anywhere, any store contents) exactly one of them
+is live: the indexing `definitions_context[len - 1 - index]` of `normalize_weak_head`, the site of
+both witnesses above.  The offsets recorded in the two contexts are in range by construction and the
+typing context is only ever indexed by variables of the source term, so the other three lookups
+cannot fail; what can is a variable that a *solved hole* brings into a scope where it does not
+exist. -/
+def C14_infer_one_live_site_stmt : Prop :=
+  ∀ (fuel : Nat) (t : Tm) (σ : List (Option Tm)) (site : String), wellScoped 0 t = true →
+    inferS fuel t { store := σ } = .panic site →
+    site = "normalize_weak_head.definitions_context[index]"
+theorem C14_infer_one_live_site : C14_infer_one_live_site_stmt :=
+  fun fuel t σ site hw h => CheckNoPanic.inferS_wellScoped_site fuel t σ site hw h
